@@ -24,15 +24,22 @@ func init() { fw.Register(&c19{}) }
 func (p *c19) ID() string { return "C19" }
 
 func (p *c19) Rule() string {
-	return "case = one twin pair: a generated scenario (gen.Scen with URNPolicy=urns, deterministic templates, no random routers; 1-4 flows with sub-flows, msg/manual/flow_action triggers with parent summaries, " +
-		"0-6 resumes incl. refreshed contacts) in which ~40% of the action templates and ~30% of the switch operands are replaced by URN-derived ones (@contact.urn, @urns.tel, format_urn, urn_parts, foreach, json(contact), " +
-		"@parent.contact.urn, @child.contact.urns …); URN-valued query groups are rewritten to presence checks (the host parses group queries with the redacted environment). Twin A keeps the generated URNs (or a re-lettering " +
+	return "case = one twin pair: a scenario in which the twins' contacts / messages differ only in URN path and display. 60% 'constant' cases: gen.Scen (deterministic templates, no random routers; 1-4 flows with sub-flows, msg/manual/flow_action triggers with parent summaries, " +
+		"0-6 resumes incl. refreshed contacts) with policy urns forced into every environment, ~40% of the action templates and ~30% of the switch operands replaced by URN-derived ones (@contact.urn, @urns.tel, format_urn, urn_parts, foreach, json(contact), " +
+		"@parent.contact.urn, @child.contact.urns ...); the same pair is re-run under policy none as a control (walks must differ). 40% 'policy history' cases: the redaction policy CHANGES during the session — the trigger's environment starts with none or urns " +
+		"(none written explicitly or by leaving the key out) and every resume carries, relative to the environment in force, no environment (34%) / a copy differing ONLY in the policy (34%) / policy flipped plus one other setting (14%) / same policy, other setting (9%) / an identical copy (9%), " +
+		"alone or together with a refreshed contact; before 30% of the resumes the session is marshalled and read back (ReadSession). 65% of the histories use a looping flow (wait -> actions -> optional sub-flow with its own wait -> wait, 2-6 resumes all consumed; half of them 'quiet' = the flows never touch URNs), the rest gen.Scen. " +
+		"The monitor labels every sprint with the policy the scenario says is in force (its own model: the policy of the last applied environment). Sprints labelled urns: full comparison (below) as long as no URN-derived value was stored while the URNs were visible " +
+		"(decided by comparing the twins' masked session JSON + source positions after every sprint under none); afterwards only URN-bearing leaves (contact.urn(s), urns.*, input.urn, run/parent/child.contact.*) and the shown-by-id clause. Sprints labelled none: every run context must tell the twins apart on a URN-bearing leaf. " +
+		"In all generated cases contact identities are varied: id in {as generated, 0, absent from the JSON, 1, 2^31, 2^53+1, -1} x name {as generated, key absent, empty text} for the session contact, its refreshed versions and the parent run summary's contact, x 0-4 URNs. " +
+		"URN-valued query groups are rewritten to presence checks (the host parses group queries with the redacted environment). Twin A keeps the generated URNs (or a re-lettering " +
 		"when they collide with a literal of the scenario), twin B re-letters path and display of every URN in trigger contact, trigger msg, call, run_summary contact, resume msgs and refreshed contacts (bijective digit/letter rotation; " +
 		"tel keeps all but the last 4 digits, same country). Each twin runs to completion from a fresh drive.Load with the same seed; after every sprint, for every run, NewXObject(run.RootContext(MergedEnvironment())) is walked " +
 		"(every property, __default__, array element, depth<=8; text, Format, JSON) and 12 (quick) / 24 (thorough) templates built from the walked paths x wrappers are evaluated through run.EvaluateTemplate; walks, template outputs " +
-		"and masked event JSON must be equal. The same pair is run under policy none as a control (walks must differ). 6 generated ContactQL URN conditions per case are parsed under both policies. " +
-		"Non-trivial = the twins' URN lists differ textually AND the walk under policy urns visited >= 1 non-null URN-bearing leaf (path *.urn, *.urns[i], urns.<scheme>) in >= 1 run (counter nontrivial.two_runs: in >= 2 distinct runs); " +
-		"distinct = SHA of (twin A scenario, re-lettering of B)."
+		"and masked event JSON must be equal; a contact without a name must render as its id in every rendering (default / object, text / Format) and so must @run / @parent / @child. 12 generated ContactQL URN conditions per case are parsed under both policies: " +
+		"property spelled as scheme (all 20 schemes) / urn / urns.<scheme> in any letter case x comparator {=, !=, ~, >, >=, <, <=, HAS, IS in any letter case} x quoted / bare value x 0-3 layers of AND / OR / implicit AND / parentheses (10% with a second URN condition); a condition that under none parses to a valued URN condition must be rejected (or re-read without URN) under urns. " +
+		"Non-trivial = the twins' URN lists differ textually AND the walk in sprints under policy urns visited >= 1 non-null URN-bearing leaf (path *.urn, *.urns[i], urns.<scheme>) in >= 1 run (counter nontrivial.two_runs: in >= 2 distinct runs); " +
+		"distinct = SHA of (twin A scenario incl. its environments, re-lettering of B, restart points)."
 }
 
 func (p *c19) Directed() []string { return directedNames() }
@@ -55,7 +62,15 @@ func (p *c19) CaseTimeoutS() int { return 120 }
 
 func (p *c19) Floors(tier string) []string {
 	return []string{"clause.walk_equal", "clause.templates_equal", "clause.events_equal", "clause.unnamed_by_id", "clause.unnamed_run_by_id", "clause.query_rejected", "control.none_differs",
-		"control.query_sees_urn_under_none", "nontrivial.two_runs", "seen.parent_urn", "seen.child_urn", "seen.input_urn", "seen.result_from_urn_template", "walk.urn_leaves", "events.masked_raw_urn"}
+		"control.query_sees_urn_under_none", "nontrivial.two_runs", "seen.parent_urn", "seen.child_urn", "seen.input_urn", "seen.result_from_urn_template", "walk.urn_leaves", "events.masked_raw_urn",
+		// policy histories
+		"switch.none_to_urns", "switch.urns_to_none", "switch.after_restart", "resume_env.policy-only", "resume_env.policy+other", "resume_env.policy-only+contact", "resume_env.identical", "resume_env.after_restart",
+		"clause.walk_equal.after_switch_to_urns", "clause.templates_equal.after_switch_to_urns", "clause.walk_equal.after_restart", "clause.urn_leaves_equal_after_taint", "clause.none_sees_urns.after_switch_to_none",
+		// shown by id: boundary ids, with URNs to fall back to, for the contact and for run summaries
+		"clause.unnamed_by_id.id_zero_with_urns", "clause.unnamed_by_id.id_beyond_int32_with_urns", "clause.unnamed_by_id.id_negative", "clause.unnamed_by_id.summary_contact_id_zero", "clause.unnamed_run_by_id.id_zero",
+		// query rejection: comparator spellings and nesting
+		"clause.query_rejected.operator_alias", "clause.query_rejected.operator_symbolic", "clause.query_rejected.operator_implicit", "clause.query_rejected.nested_deep",
+		"clause.query_rejected.scheme", "clause.query_rejected.urn-attribute", "clause.query_rejected.urns-prefix"}
 }
 
 func tplsPerRun(tier string) int {
@@ -76,21 +91,42 @@ func (p *c19) Run(c fw.Case) fw.Result {
 		r = fw.NewRand(c.Seed, "C19", c.Index)
 	}
 
-	if c.Directed == "contactql-urn-conditions" {
-		res.Fingerprint = "contactql-urn-conditions"
-		checkQueries(&res, r, directedURNQueries)
+	if c.Directed == "contactql-urn-conditions" || c.Directed == "contactql-operator-grid" {
+		qs := directedURNQueries
+		if c.Directed == "contactql-operator-grid" {
+			qs = operatorGrid()
+		}
+		res.Fingerprint = c.Directed
+		checkQueries(&res, r, qs)
 		res.NonTrivial = true
-		res.Sample = map[string]any{"queries": len(directedURNQueries)}
+		res.Sample = map[string]any{"queries": len(qs)}
 		return res
 	}
 
+	// history = the redaction policy is part of the scenario (it may change from resume to resume) instead of being
+	// forced to "urns" everywhere
 	var scen *gen.Scenario
-	if c.Directed != "" {
+	history, looping, quiet := false, false, false
+	var restarts map[int]bool
+	switch {
+	case c.Directed != "" && historyCase(c.Directed) != nil:
+		history, looping = true, true
+		scen, restarts = buildHistory(historyCase(c.Directed))
+	case c.Directed != "":
 		scen = directedScenario(c.Directed)
-	} else {
-		o := gen.ScenOpts{URNPolicy: "urns", Deterministic: true, NoRandom: true, NoHostileTpl: r.Chance(0.7), MaxNodes: r.Range(3, 8), MaxResumes: r.Range(2, 6),
-			LoopHeavy: r.Chance(0.35), ContactChanges: r.Chance(0.3), Localized: r.Chance(0.2), QueryGroups: r.Chance(0.3)}
-		scen = gen.Scen(r, o)
+	default:
+		history = r.Chance(0.4)
+		if history && r.Chance(0.65) {
+			looping = true
+			scen, quiet = historyScenario(r)
+		} else {
+			o := gen.ScenOpts{URNPolicy: "urns", Deterministic: true, NoRandom: true, NoHostileTpl: r.Chance(0.7), MaxNodes: r.Range(3, 8), MaxResumes: r.Range(2, 6),
+				LoopHeavy: r.Chance(0.35), ContactChanges: r.Chance(0.3), Localized: r.Chance(0.2), QueryGroups: r.Chance(0.3)}
+			if history {
+				o.RefreshP = 0.25
+			}
+			scen = gen.Scen(r, o)
+		}
 	}
 	base, err := cloneScenario(scen)
 	if err != nil {
@@ -98,6 +134,23 @@ func (p *c19) Run(c fw.Case) fw.Result {
 		return res
 	}
 	res.Count("assets.urn_query_groups_neutralised", int64(neutraliseURNGroups(base)))
+	if c.Directed == "" {
+		shapeContacts(r.Fork("contact-shapes"), base, &res)
+		if history {
+			pr := r.Fork("policies")
+			planPolicies(pr, base)
+			restarts = restartPlan(pr, len(base.Resumes), 0.3)
+		}
+	}
+	if history {
+		res.Count("history.cases", 1)
+		if looping {
+			res.Count("history.looping_scenarios", 1)
+		}
+		if quiet {
+			res.Count("history.quiet_flows", 1)
+		}
+	}
 
 	ra, rb, ok := pickRots(r, base)
 	if !ok {
@@ -111,11 +164,15 @@ func (p *c19) Run(c fw.Case) fw.Result {
 		urnsA = append(urnsA, ra.urn(u))
 		urnsB = append(urnsB, rb.urn(u))
 	}
-	if c.Directed == "" {
+	if c.Directed == "" && !looping {
 		res.Count("templates_planted", int64(plantTemplates(r, base, urnsA)))
 	}
-	twinA, twinB := twinOf(base, ra, "urns"), twinOf(base, rb, "urns")
-	res.Fingerprint = twinA.Fingerprint() + fmt.Sprint(rb)
+	forced := "urns"
+	if history {
+		forced = "" // keep the scenario's own policies
+	}
+	twinA, twinB := twinOf(base, ra, forced), twinOf(base, rb, forced)
+	res.Fingerprint = twinA.Fingerprint() + fmt.Sprint(rb, sortedKeys(restarts))
 	twinsDiffer := strings.Join(urnsA, " ") != strings.Join(urnsB, " ")
 	if !ra.identity() {
 		res.Count("twin_a_relettered", 1)
@@ -127,6 +184,10 @@ func (p *c19) Run(c fw.Case) fw.Result {
 
 	witness := func(extra map[string]any) map[string]any {
 		w := map[string]any{"scenario": twinA, "twin_b": map[string]any{"trigger": twinB.Trigger, "resumes": twinB.Resumes}, "urns_a": urnsA, "urns_b": urnsB, "policy": "urns"}
+		if history {
+			w["policy"] = "as written in the environments of the trigger and the resumes"
+			w["restart_before_resumes"] = sortedKeys(restarts)
+		}
 		for k, v := range extra {
 			w[k] = v
 		}
@@ -137,7 +198,8 @@ func (p *c19) Run(c fw.Case) fw.Result {
 	tpls := map[[2]int][]tplSpec{}
 	tr := r.Fork("templates")
 	k := tplsPerRun(c.Tier)
-	obsA, err := observeTwin(twinA, seed, tpls, func(si, ri int, nodes []wnode) []tplSpec { return genTemplates(tr, nodes, k) }, obsOpts{withEvents: true})
+	oo := obsOpts{withEvents: true, restarts: restarts, digest: history}
+	obsA, err := observeTwin(twinA, seed, tpls, func(si, ri int, nodes []wnode) []tplSpec { return genTemplates(tr, nodes, k) }, oo)
 	if err != nil {
 		res.Discarded = "unloadable: " + errClass(err.Error())
 		return res
@@ -146,7 +208,7 @@ func (p *c19) Run(c fw.Case) fw.Result {
 		res.Discarded = "unreadable trigger: " + obsA.unreadable
 		return res
 	}
-	obsB, err := observeTwin(twinB, seed, tpls, nil, obsOpts{withEvents: true})
+	obsB, err := observeTwin(twinB, seed, tpls, nil, oo)
 	if err != nil {
 		// same assets: cannot happen unless loading depends on the URNs
 		res.Violate("C19|twins-diverge|assets-load", "twin B does not load although twin A does: "+err.Error(), witness(nil))
@@ -167,21 +229,24 @@ func (p *c19) Run(c fw.Case) fw.Result {
 		res.Count("nontrivial.two_runs", 1)
 	}
 
-	// --- control: the same pair without redaction must be told apart by the same walk
-	ctlA, errA := observeTwin(twinOf(base, ra, "none"), seed, nil, nil, obsOpts{})
-	ctlB, errB := observeTwin(twinOf(base, rb, "none"), seed, nil, nil, obsOpts{})
-	if errA == nil && errB == nil {
-		control(&res, ctlA, ctlB, contactURNsDiffer(twinA, twinB), func(extra map[string]any) map[string]any {
-			w := witness(extra)
-			w["policy"] = "none"
-			return w
-		})
+	// --- control: the same pair without redaction must be told apart by the same walk (a policy history is its own
+	// control: its sprints under policy none are checked one by one in compareTwins)
+	if !history {
+		ctlA, errA := observeTwin(twinOf(base, ra, "none"), seed, nil, nil, obsOpts{})
+		ctlB, errB := observeTwin(twinOf(base, rb, "none"), seed, nil, nil, obsOpts{})
+		if errA == nil && errB == nil {
+			control(&res, ctlA, ctlB, contactURNsDiffer(twinA, twinB), func(extra map[string]any) map[string]any {
+				w := witness(extra)
+				w["policy"] = "none"
+				return w
+			})
+		}
 	}
 
 	// --- contact queries on URNs
 	qr := r.Fork("queries")
 	var qs []urnQuery
-	for i := 0; i < 6; i++ {
+	for i := 0; i < 12; i++ {
 		qs = append(qs, genURNQuery(qr))
 	}
 	checkQueries(&res, qr, qs)
@@ -226,13 +291,17 @@ func compareTwins(res *fw.Result, A, B *twinObs, tpls map[[2]int][]tplSpec, witn
 		best.wit["other_differences_in_this_case"] = len(found) - 1
 		res.Violate(best.sig, best.what, best.wit)
 	}()
-	if len(A.sprints) != len(B.sprints) {
-		add(3, 0, "C19|twins-diverge|number-of-engine-calls", fmt.Sprintf("twin A made %d engine calls, twin B %d", len(A.sprints), len(B.sprints)), witness(nil))
-	}
 	n := len(A.sprints)
 	if len(B.sprints) < n {
 		n = len(B.sprints)
 	}
+	// tainted: during a stretch of history under policy none the twins stored something that was derived from their
+	// URNs (a result, a field, a name, a message text kept in the run's events) or took different routes. From then on
+	// the statement still demands that the URNs themselves are hidden whenever the policy is urns, but not that
+	// copies made while they were visible disappear: only URN-bearing leaves and the "shown by id" clause are checked.
+	tainted := false
+	prev := ""
+	sinceSwitch := "" // "urns": some earlier sprint ran under none and the policy is urns now; "none": the reverse
 	for i := 0; i < n; i++ {
 		a, b := A.sprints[i], B.sprints[i]
 		where := map[string]any{"sprint": i, "call": a.kind}
@@ -243,11 +312,82 @@ func compareTwins(res *fw.Result, A, B *twinObs, tpls map[[2]int][]tplSpec, witn
 			res.Seen("engine_error_kinds", a.err)
 		}
 		res.Seen("session_status_after_call", a.status)
+		policy := a.policy
+		if a.policy != b.policy {
+			policy = "unknown"
+		}
+		applied := a.err == "" && b.err == "" && len(a.runs) > 0
+		if applied {
+			res.Count("sprints.policy_"+policy, 1)
+			if a.restarted {
+				res.Count("sprints.after_restart", 1)
+			}
+			if a.envKind != "" && a.envKind == b.envKind {
+				res.Count("resume_env."+a.envKind, 1)
+				if a.restarted {
+					res.Count("resume_env.after_restart", 1)
+				}
+			}
+			if prev != "" && policy != prev && (policy == "urns" || policy == "none") {
+				res.Count("switch."+prev+"_to_"+policy, 1)
+				if a.restarted {
+					res.Count("switch.after_restart", 1)
+				}
+				sinceSwitch = policy
+			}
+			prev = policy
+		}
 		if a.urnShape != b.urnShape {
+			if tainted || policy != "urns" {
+				// while the URNs are (or were) visible the flows may add a URN that one twin already has
+				res.Count("skipped.diverged_after_taint", 1)
+				break
+			}
 			// a URN added by the flow was already present in one twin only (identity collision): set semantics, not redaction
 			res.Count("skipped.urn_shape_diverged", 1)
 			res.Discarded = "twin URN lists diverged in shape (identity collision with a URN added by the flow)"
 			return runsWithURN
+		}
+
+		if policy != "urns" || tainted {
+			// ---------- sprints that are not fully comparable
+			switch {
+			case policy == "none" && applied:
+				noneSprint(res, a, b, i, sinceSwitch == "none", witness)
+			case policy == "urns" && applied:
+				m := len(a.runs)
+				if len(b.runs) < m {
+					m = len(b.runs)
+				}
+				for j := 0; j < m; j++ {
+					x, y := a.runs[j], b.runs[j]
+					if x.ctxPanic != "" || y.ctxPanic != "" || x.uuid != y.uuid || x.flow != y.flow {
+						continue
+					}
+					rw := map[string]any{"sprint": i, "call": a.kind, "run": j, "flow": x.flow, "run_status": x.status, "after_policy_none_left_urn_derived_state": true}
+					if x.urnLeaves > 0 {
+						runsWithURN[x.uuid] = true
+					}
+					observePaths(res, x.nodes)
+					if dd := diffURNLeaves(res, x.nodes, y.nodes); dd != nil {
+						add(0, dd.rank, "C19|context-differs|"+sigPath(dd.path)+"|"+dd.aspect,
+							fmt.Sprintf("under policy urns (in force since an earlier resume) the context of run %d (%s) after sprint %d differs between the twins at %s (%s): %q vs %q", j, x.flow, i, dd.path, dd.aspect, trunc(dd.a, 120), trunc(dd.b, 120)),
+							witness(merge(rw, map[string]any{"path": dd.path, "aspect": dd.aspect, "twin_a": dd.a, "twin_b": dd.b})))
+					}
+					checkUnnamed(res, x.nodes, witness, rw)
+					checkUnnamed(res, y.nodes, witness, rw)
+				}
+			}
+			if !tainted && (policy != "none" || a.state != b.state || a.err != b.err || a.status != b.status || len(a.runs) != len(b.runs)) {
+				tainted = true
+				res.Count("history.tainted_from_here", 1)
+			}
+			continue
+		}
+
+		// ---------- policy urns, nothing URN-derived stored so far: the twins must be indistinguishable
+		if sinceSwitch == "urns" {
+			res.Count("clause.full_comparison_after_switch_to_urns", 1)
 		}
 		if a.err != b.err {
 			add(3, 0, "C19|twins-diverge|engine-error", fmt.Sprintf("sprint %d: twin A: %q, twin B: %q", i, a.err, b.err), witness(where))
@@ -299,6 +439,12 @@ func compareTwins(res *fw.Result, A, B *twinObs, tpls map[[2]int][]tplSpec, witn
 			}
 			res.Count("walk.contexts", 1)
 			res.Count("clause.walk_equal", int64(len(x.nodes)))
+			if sinceSwitch == "urns" {
+				res.Count("clause.walk_equal.after_switch_to_urns", int64(len(x.nodes)))
+			}
+			if a.restarted {
+				res.Count("clause.walk_equal.after_restart", int64(len(x.nodes)))
+			}
 			res.Count("walk.urn_leaves", int64(x.urnLeaves))
 			if x.truncated || y.truncated {
 				res.Count("walk.node_cap_reached", 1)
@@ -325,6 +471,9 @@ func compareTwins(res *fw.Result, A, B *twinObs, tpls map[[2]int][]tplSpec, witn
 					break
 				}
 				res.Count("clause.templates_equal", 1)
+				if sinceSwitch == "urns" {
+					res.Count("clause.templates_equal.after_switch_to_urns", 1)
+				}
 				res.Seen("template_wrappers", specs[t].Wrapper)
 				if urnBearing(specs[t].Path) {
 					res.Count("templates.over_urn_paths", 1)
@@ -340,7 +489,104 @@ func compareTwins(res *fw.Result, A, B *twinObs, tpls map[[2]int][]tplSpec, witn
 			}
 		}
 	}
+	if !tainted && len(A.sprints) != len(B.sprints) {
+		add(3, 0, "C19|twins-diverge|number-of-engine-calls", fmt.Sprintf("twin A made %d engine calls, twin B %d", len(A.sprints), len(B.sprints)), witness(nil))
+	}
 	return runsWithURN
+}
+
+// noneSprint: "without the policy the same expressions do see the URNs" for one sprint of a policy history that ran
+// under policy none: wherever the session contact has URNs (textually different in the twins, same shape), every run's
+// context must tell the twins apart on a URN-bearing leaf.
+func noneSprint(res *fw.Result, a, b sprintObs, i int, afterSwitch bool, witness func(map[string]any) map[string]any) {
+	if !a.hasURNs || a.urnRaw == b.urnRaw {
+		res.Count("control.none_sprints_without_urns", 1)
+		return
+	}
+	m := len(a.runs)
+	if len(b.runs) < m {
+		m = len(b.runs)
+	}
+	for j := 0; j < m; j++ {
+		x, y := a.runs[j], b.runs[j]
+		if x.ctxPanic != "" || y.ctxPanic != "" || x.uuid != y.uuid {
+			continue
+		}
+		hasLeaf := false
+		for _, n := range x.nodes {
+			if n.path == "contact.urns[0]" && n.leaf && n.kind != "null" {
+				hasLeaf = true
+				break
+			}
+		}
+		if !hasLeaf {
+			continue
+		}
+		dn, du := countDiffs(x.nodes, y.nodes)
+		res.Count("control.none_differing_nodes", int64(dn))
+		res.Count("control.none_differing_urn_leaves", int64(du))
+		res.Count("clause.none_sees_urns", 1)
+		res.Count("control.none_differs", 1)
+		if afterSwitch {
+			res.Count("clause.none_sees_urns.after_switch_to_none", 1)
+		}
+		if du == 0 {
+			res.Violate("C19|control|policy-none-hides-urns", fmt.Sprintf("sprint %d ran under policy none, yet the context of run %d (%s) is identical in the twins on every URN-bearing path although their URNs differ", i, j, x.flow),
+				witness(map[string]any{"sprint": i, "call": a.kind, "run": j, "flow": x.flow, "policy": "none (in force for this sprint)", "contact_urns_a": a.urnRaw, "contact_urns_b": b.urnRaw}))
+			return
+		}
+	}
+}
+
+// urnRoots: the places of the context that are computed from URN values afresh on every evaluation.
+var urnRoots = []string{"contact.", "urns.", "input.urn", "run.contact.", "parent.contact.", "parent.urns.", "child.contact.", "child.urns."}
+
+func underURNRoot(path string) bool {
+	for _, p := range urnRoots {
+		if strings.HasPrefix(path, p) {
+			return true
+		}
+	}
+	return false
+}
+
+// diffURNLeaves compares only the URN-bearing leaves (matched by path) of two walks.
+func diffURNLeaves(res *fw.Result, a, b []wnode) *walkDiff {
+	byPath := make(map[string]*wnode, len(b))
+	for i := range b {
+		if b[i].leaf && urnBearing(b[i].path) {
+			byPath[b[i].path] = &b[i]
+		}
+	}
+	var best *walkDiff
+	for i := range a {
+		x := &a[i]
+		if !x.leaf || !urnBearing(x.path) || !underURNRoot(x.path) {
+			continue
+		}
+		y, ok := byPath[x.path]
+		if !ok || x.kind != y.kind {
+			continue
+		}
+		res.Count("clause.urn_leaves_equal_after_taint", 1)
+		if x.hash == y.hash {
+			continue
+		}
+		dd := &walkDiff{path: x.path, aspect: "text", a: x.render, b: y.render, rank: strings.Count(x.path, ".")}
+		switch {
+		case x.render != y.render:
+		case x.format != y.format:
+			dd.aspect, dd.a, dd.b = "format", x.format, y.format
+		case x.json != y.json:
+			dd.aspect, dd.a, dd.b = "json", x.json, y.json
+		default:
+			dd.aspect = "text-beyond-preview"
+		}
+		if best == nil || dd.rank < best.rank {
+			best = dd
+		}
+	}
+	return best
 }
 
 // observePaths records which URN-bearing places the walk really visited.
@@ -381,28 +627,53 @@ func observePaths(res *fw.Result, nodes []wnode) {
 // run.contact, parent.contact, child.contact) whose name is empty, the default (what @contact renders to) is the id;
 // and the run / parent / child default, which is "<contact>@<flow>", starts with the id.
 func checkUnnamed(res *fw.Result, nodes []wnode, witness func(map[string]any) map[string]any, where map[string]any) {
-	name, id, def := map[string]string{}, map[string]string{}, map[string]string{}
-	for _, n := range nodes {
-		i := strings.LastIndexByte(n.path, '.')
-		if i < 0 {
+	name, id, def := map[string]string{}, map[string]string{}, map[string]*wnode{}
+	self := map[string]*wnode{}
+	hasURNs := map[string]bool{}
+	for i := range nodes {
+		n := &nodes[i]
+		if n.path == "contact" || n.path == "run" || n.path == "parent" || n.path == "child" || strings.HasSuffix(n.path, ".contact") {
+			self[n.path] = n
+		}
+		j := strings.LastIndexByte(n.path, '.')
+		if j < 0 {
 			continue
 		}
-		owner, prop := n.path[:i], n.path[i+1:]
+		owner, prop := n.path[:j], n.path[j+1:]
 		switch prop {
 		case "name":
 			name[owner] = n.render
 		case "id":
 			id[owner] = n.render
 		case "__default__":
-			def[owner] = n.render
+			def[owner] = n
+		case "urns[0]":
+			hasURNs[owner] = true
 		}
 	}
-	for owner, nm := range name {
+	idClass := func(idv string) string {
+		switch {
+		case idv == "0":
+			return "id_zero"
+		case strings.HasPrefix(idv, "-"):
+			return "id_negative"
+		case len(idv) > 9:
+			return "id_beyond_int32"
+		}
+		return "id_positive"
+	}
+	var owners []string
+	for owner := range name {
+		owners = append(owners, owner)
+	}
+	sort.Strings(owners)
+	for _, owner := range owners {
+		nm := name[owner]
 		if owner != "contact" && !strings.HasSuffix(owner, ".contact") {
 			continue
 		}
 		idv, hasID := id[owner]
-		dv, hasDef := def[owner]
+		dn, hasDef := def[owner]
 		if !hasID || !hasDef {
 			continue
 		}
@@ -410,19 +681,47 @@ func checkUnnamed(res *fw.Result, nodes []wnode, witness func(map[string]any) ma
 			res.Count("walk.named_contacts", 1)
 			continue
 		}
+		cls := idClass(idv)
 		res.Count("clause.unnamed_by_id", 1)
-		if dv != idv {
-			res.Violate("C19|unnamed-contact-not-shown-by-id|contact", fmt.Sprintf("contact without a name at %s renders as %q, id is %q", owner, dv, idv),
-				witness(merge(where, map[string]any{"path": owner, "rendered": dv, "id": idv})))
+		res.Count("clause.unnamed_by_id."+cls, 1)
+		if hasURNs[owner] {
+			res.Count("clause.unnamed_by_id.with_urns", 1)
+			res.Count("clause.unnamed_by_id."+cls+"_with_urns", 1)
+		}
+		if owner != "contact" {
+			res.Count("clause.unnamed_by_id.summary_contact", 1)
+			res.Count("clause.unnamed_by_id.summary_contact_"+cls, 1)
+		}
+		// every rendering of the contact: its default as text and formatted, and the object itself (what a bare
+		// @contact, text(contact) and format(contact) give)
+		shown := []struct{ how, got string }{{"default as text", dn.render}, {"default formatted", dn.format}}
+		if sn, ok := self[owner]; ok {
+			shown = append(shown, struct{ how, got string }{"object as text", sn.render}, struct{ how, got string }{"object formatted", sn.format})
+		}
+		for _, sh := range shown {
+			if sh.got != idv {
+				res.Violate("C19|unnamed-contact-not-shown-by-id|contact", fmt.Sprintf("contact without a name at %s renders (%s) as %q, id is %q", owner, sh.how, sh.got, idv),
+					witness(merge(where, map[string]any{"path": owner, "rendering": sh.how, "rendered": sh.got, "id": idv})))
+				break
+			}
 		}
 		// the run summary default
 		runOwner := strings.TrimSuffix(owner, ".contact")
 		if runOwner != owner && (runOwner == "run" || runOwner == "parent" || runOwner == "child") {
 			if rd, ok := def[runOwner]; ok {
 				res.Count("clause.unnamed_run_by_id", 1)
-				if !strings.HasPrefix(rd, idv+"@") {
-					res.Violate("C19|unnamed-contact-not-shown-by-id|run-summary", fmt.Sprintf("@%s renders as %q for a contact without a name whose id is %q", runOwner, rd, idv),
-						witness(merge(where, map[string]any{"path": runOwner, "rendered": rd, "id": idv})))
+				res.Count("clause.unnamed_run_by_id."+cls, 1)
+				res.Seen("unnamed_run_summaries", runOwner+":"+cls)
+				shown := []struct{ how, got string }{{"default as text", rd.render}, {"default formatted", rd.format}}
+				if sn, ok := self[runOwner]; ok {
+					shown = append(shown, struct{ how, got string }{"object as text", sn.render})
+				}
+				for _, sh := range shown {
+					if !strings.HasPrefix(sh.got, idv+"@") {
+						res.Violate("C19|unnamed-contact-not-shown-by-id|run-summary", fmt.Sprintf("@%s renders (%s) as %q for a contact without a name whose id is %q", runOwner, sh.how, sh.got, idv),
+							witness(merge(where, map[string]any{"path": runOwner, "rendering": sh.how, "rendered": sh.got, "id": idv})))
+						break
+					}
 				}
 			}
 		}
